@@ -61,6 +61,12 @@ func main() {
 			genC08(rng, *n, *tier)
 		case "C09":
 			genC09(rng, *n, *tier)
+		case "C10":
+			genC10(rng, *n, *tier)
+		case "C11":
+			genC11(rng, *n, *tier)
+		case "C13":
+			genC13(rng, *n, *tier)
 		case "C17":
 			genC17(rng, *n, *tier)
 		case "C19":
